@@ -311,11 +311,30 @@ func (p *provProfile) disruptOp() bool {
 		sort.Strings(names)
 		if len(names) > 0 {
 			n := names[ch.Pick("dis.pick", len(names))]
+			// the first candidate keys the command in the orchestration queue: prefer it when the command has more than one
+			if ci := p.d.byCand[n]; ci != nil && len(ci.cands) > 1 && ch.Chance("dis.first", 0.6) {
+				n = ci.cands[0].nodeClaim
+				p.s.Probe("c08-first-candidate-of-multi-deleted")
+			}
 			if o := st.Get(gvkNodeClaim, types.NamespacedName{Name: n}); o != nil {
 				_ = st.Delete(o, DeleteOpts{}, nil)
 				p.note("user deletes candidate NodeClaim %s of a live command", n)
 			}
 		}
+	case 10: // the NodePool template gains or loses a terminationGracePeriod (a drifting edit: NodeClaims launched before keep theirs)
+		name := p.pools[ch.Pick("prov.pool", len(p.pools))]
+		var set bool
+		st.Mutate(gvkNodePool, types.NamespacedName{Name: name}, func(o client.Object) {
+			np := o.(*v1.NodePool)
+			if np.Spec.Template.Spec.TerminationGracePeriod == nil {
+				np.Spec.Template.Spec.TerminationGracePeriod = &metav1.Duration{Duration: 10 * time.Minute}
+				set = true
+			} else {
+				np.Spec.Template.Spec.TerminationGracePeriod = nil
+			}
+		})
+		p.driftEdit[name] = s.Now()
+		p.note("NodePool %s template terminationGracePeriod set=%v (drifting)", name, set)
 	default:
 		return false
 	}
@@ -508,7 +527,19 @@ func nodeReadyTrue(n *corev1.Node) bool { return nodeIsReady(n) }
 
 func (p *provProfile) checkBudgets(ci *cmdInfo) {
 	s := p.s
-	// Karpenter's own state view at acceptance
+	// Karpenter's view of the pool's nodes at acceptance (which nodes exist, are initialized, ready, deleting) comes
+	// from the API objects in its cluster state; which nodes are *being disrupted by a command still in flight* is
+	// taken from the simulator's own record of accepted commands, never from the deletion marks under test
+	liveCand := map[string]bool{}
+	if q, _ := p.e.Parts["disruptionQueue"].(*disruption.Queue); q != nil {
+		for _, c := range q.GetCommands() {
+			if other := p.d.cmds[c.ID.String()]; other != nil || c.ID == ci.cmd.ID {
+				for _, cand := range c.Candidates {
+					liveCand[cand.ProviderID()] = true
+				}
+			}
+		}
+	}
 	total := map[string]int{}
 	disrupting := map[string]int{}
 	for n := range p.e.Cluster.Nodes() {
@@ -527,7 +558,8 @@ func (p *provProfile) checkBudgets(ci *cmdInfo) {
 			}
 		}
 		_ = tainted
-		if !nodeReadyTrue(n.Node) || n.MarkedForDeletion() {
+		deleting := n.Node.DeletionTimestamp != nil || n.NodeClaim.DeletionTimestamp != nil
+		if !nodeReadyTrue(n.Node) || deleting || liveCand[n.ProviderID()] {
 			disrupting[pool]++
 		}
 	}
@@ -711,6 +743,28 @@ func (p *provProfile) checkSavings(ci *cmdInfo) {
 	if len(ci.cmd.Replacements) > 1 {
 		s.Violate("C06", "multiple-replacements", "consolidation command %s has %d replacements", ci.id, len(ci.cmd.Replacements))
 		return
+	}
+	// the plan the command was decided on (its own simulation results, node snapshots of decision time): every pod
+	// that has to move off a candidate finds its home on an *initialized* remaining node or on the one replacement
+	candNode := map[string]bool{}
+	for _, c := range ci.cands {
+		candNode[c.node] = true
+	}
+	for _, e := range ci.cmd.Results.ExistingNodes {
+		if e == nil || e.StateNode == nil || e.NodeClaim == nil || len(e.Pods) == 0 {
+			continue
+		}
+		s.Probe("c06-plan-destination-checked")
+		initialized := e.Node != nil && e.Node.Labels[v1.NodeInitializedLabelKey] == "true"
+		if initialized {
+			continue
+		}
+		for _, q := range e.Pods {
+			if q.Spec.NodeName != "" && candNode[q.Spec.NodeName] {
+				s.Violate("C06", "plan-relies-on-uninitialized-node", "consolidation command %s (%s) moves pod %s from candidate %s to %s, which was not initialized when the command was decided", ci.id, ci.reason, q.Name, q.Spec.NodeName, e.Name())
+				return
+			}
+		}
 	}
 	if len(ci.cmd.Replacements) == 0 {
 		return
@@ -943,13 +997,45 @@ func (p *provProfile) disruptFinal() {
 		return
 	}
 	live := map[string]bool{}
-	for _, c := range q.GetCommands() {
+	cmds := q.GetCommands()
+	sort.Slice(cmds, func(i, j int) bool { return d.cmds[cmds[i].ID.String()].id < d.cmds[cmds[j].ID.String()].id })
+	for _, c := range cmds {
 		for _, cand := range c.Candidates {
 			live[cand.ProviderID()] = true
 		}
+		// "the action times out ... the candidates return to service": the queue bounds an action by a retry
+		// duration (documented as at most an hour). A command that outlived it by a wide margin must not still hold a
+		// candidate that is neither deleted nor back in service. A command whose candidates are all gone holds nothing
+		// the property speaks about.
 		age := s.Now().Sub(c.CreationTimestamp)
-		if age > 75*time.Minute {
-			s.Violate("C08", "command-stuck", "command %s (%s, %d candidates, %d replacements) is still in the orchestration queue %v after it was created; the documented maximum is 1h", d.cmds[c.ID.String()].id, c.Reason(), len(c.Candidates), len(c.Replacements), age.Truncate(time.Second))
+		if age <= 75*time.Minute {
+			continue
+		}
+		s.Probe("c08-command-outlived-timeout")
+		for _, cand := range c.Candidates {
+			srvN := s.store.Get(gvkNode, types.NamespacedName{Name: cand.Node.Name})
+			srvC := s.store.Get(gvkNodeClaim, types.NamespacedName{Name: cand.NodeClaim.Name})
+			if srvN == nil || srvC == nil || srvN.GetDeletionTimestamp() != nil || srvC.GetDeletionTimestamp() != nil {
+				continue
+			}
+			tainted := false
+			for _, t := range srvN.(*corev1.Node).Spec.Taints {
+				if t.Key == v1.DisruptedTaintKey {
+					tainted = true
+				}
+			}
+			cond := srvC.(*v1.NodeClaim).StatusConditions().Get(v1.ConditionTypeDisruptionReason) != nil
+			marked := false
+			for n := range p.e.Cluster.Nodes() {
+				if n.ProviderID() == cand.ProviderID() && n.MarkedForDeletion() {
+					marked = true
+				}
+			}
+			if tainted || cond || marked {
+				s.Violate("C08", "candidate-stranded", "command %s (%s, %d candidates, %d replacements) is still in the orchestration queue %v after it was created and never timed out; its candidate %s was neither deleted nor returned to service (disruption taint=%v, DisruptionReason condition=%v, marked for deletion=%v)",
+					d.cmds[c.ID.String()].id, c.Reason(), len(c.Candidates), len(c.Replacements), age.Truncate(time.Second), cand.NodeClaim.Name, tainted, cond, marked)
+				break
+			}
 		}
 	}
 	if p.tailOK {
